@@ -8,8 +8,8 @@ DESCRIPTION = {
     "level": "exploration",
     "rule": ("Receive side: Hypothesis draws maxFramePayloadSize/maxMessagePayloadSize from {0,1,125,126,1000,65535,65536,100000}, role, failByDrop, compression and "
              "a peer traffic of messages whose total size is limit-1/limit/limit+1/>>limit spread over 1-6 fragments in every way; the offending frame is delivered "
-             "header-only first.  Oracle (independent size accounting on the generated frame list): messages within the limits are delivered intact; as soon as the header "
-             "of the first offending frame has been fed the endpoint has failed (close frame 1009, or drop when failByDrop) before any payload byte; nothing of that message "
+             "header-only first; in a quarter of the cases the application has already called sendClose() (close handshake in progress, data still arriving).  Oracle (independent size accounting on the generated frame list): messages within the limits are delivered intact; as soon as the header "
+             "of the first offending frame has been fed the endpoint has failed (close frame 1009, or drop when failByDrop or when our close frame is already out) before any payload byte; nothing of that message "
              "or after it is delivered.  Send side: sendMessage around the limit: over-limit raises PayloadExceededError and writes nothing, with compression and context "
              "takeover the following messages still arrive intact at the peer.  Decompression cap (max_message_size on the accept objects): a compressible message inflating "
              "above the cap is never delivered truncated/altered and later messages are intact or the connection is failed.  Non-trivial = total within +-1 of a limit, "
@@ -51,7 +51,9 @@ def rx_strategy():
                                         min_size=nfrag - 1, max_size=nfrag - 1)))
             msgs.append({"total": total, "cuts": cuts, "bin": draw(st.booleans())})
         return {"server": draw(st.booleans()), "fbd": draw(st.booleans()), "comp": draw(st.integers(0, 3)) == 0, "mf": mf, "mm": mm, "msgs": msgs,
-                "ping_between": draw(st.booleans())}
+                "ping_between": draw(st.booleans()),
+                # the application has already asked for a close (our close frame is out, the peer's reply is not in yet): data still arrives and limits still apply
+                "closing": draw(st.sampled_from([False, False, False, True]))}
     return case()
 
 
@@ -62,6 +64,10 @@ def check_receive(c):
     rx = Rx(c["server"], c["comp"], c["fbd"], {"maxFramePayloadSize": c["mf"], "maxMessagePayloadSize": c["mm"]})
     mk = b"\x0f\x1e\x2d\x3c" if c["server"] else None
     mf, mm = c["mf"], c["mm"]
+    if c.get("closing"):
+        rx.d.call(rx.side.proto.sendClose, 1000, "bye")
+        rx.d.settle()
+        rx.out += rx.ep.take()
     expected = []
     failed = False
     header_only_seen = False
@@ -107,7 +113,7 @@ def check_receive(c):
     if got != expected:
         what = "over-limit-message-delivered" if any(len(p) > (mm or 1 << 62) for _, p in got) else ("delivery-after-limit-failure" if len(got) > len(expected) else "under-limit-message-lost-or-altered")
         raise Violation("C16|rx|" + what, "limits frame=%d msg=%d: delivered %r expected %r" % (mf, mm, [(b, len(p)) for b, p in got], [(b, len(p)) for b, p in expected]), c)
-    if not failed:
+    if not failed and not c.get("closing"):
         if obs["dropped"] or obs["closes"] or [f for f in obs["frames"] if f.opcode == 8]:
             raise Violation("C16|rx|within-limit-traffic-failed", "limits frame=%d msg=%d sizes %r: %r" % (mf, mm, [m["total"] for m in c["msgs"]], obs["closes"] or obs["dropped"]), c)
     if obs["escaped"] or obs["loop_errors"]:
@@ -120,7 +126,13 @@ def check_failed_now(rx, c, when):
     rx.out += rx.ep.take()
     frames, _ = ref6455.parse_frames(rx.out)
     closes = [f for f in frames if f.opcode == 8]
-    if c["fbd"]:
+    if c.get("closing"):
+        # our close frame is already out (at most one may ever be sent): the only way left to fail the connection is to drop it
+        if not rx.ep.drop_requested:
+            raise Violation("C16|rx|not-failed-at-header|closing", "close handshake in progress: transport not dropped %s" % when, c)
+        if len(closes) != 1:
+            raise Violation("C16|rx|second-close-frame", "%d close frames %s" % (len(closes), when), c)
+    elif c["fbd"]:
         if not rx.ep.drop_requested:
             raise Violation("C16|rx|not-failed-at-header", "failByDrop: transport not dropped %s" % when, c)
     else:
@@ -137,7 +149,7 @@ def receive(col, seed, n):
         failed, ho = check_receive(c)
         near = any(abs(m["total"] - l) <= 1 for m in c["msgs"] for l in (c["mf"], c["mm"]) if l)
         col.case(near or ho, dig=c, cls=["rx/" + ("limit-hit" if failed else "within-limits"), "rx/role:" + ("server" if c["server"] else "client"),
-                                        "rx/fbd=%s" % c["fbd"]] + (["rx/compression"] if c["comp"] else []) + (["rx/header-only"] if ho else []),
+                                        "rx/fbd=%s" % c["fbd"]] + (["rx/compression"] if c["comp"] else []) + (["rx/header-only"] if ho else []) + (["rx/while-closing"] if c.get("closing") else []),
                  sample={"mf": c["mf"], "mm": c["mm"], "msgs": [(m["total"], m["cuts"]) for m in c["msgs"]], "role": "server" if c["server"] else "client"})
     run_hypothesis(col, "rx", rx_strategy(), body, n, seed)
 
